@@ -1013,7 +1013,7 @@ pub fn run(rep: &Report) {
     }
     let (nt, nr, nc, np, nn) = match rep.tier {
         Tier::Quick => (500, 150, 200, 140, 180),
-        Tier::Thorough => (12_000, 2500, 4000, 2500, 3000),
+        Tier::Thorough => (6_000, 1200, 2000, 1200, 1500),
     };
     let timed = |name: &str, f: &dyn Fn()| {
         let t0 = std::time::Instant::now();
